@@ -73,7 +73,8 @@ Section PatternProofs.
   Theorem build_wf name namelen single os (p : pattern) :
     build E name namelen single os = inl p -> wf_pattern p = true.
   Proof.
-    unfold build. destruct (bsteps E (mkB E [] [] []) os) as [s|] eqn:Es; [|discriminate].
+    unfold build. destruct (Nat.eqb namelen 0); [discriminate|].
+    destruct (bsteps E (mkB E [] [] []) os) as [s|] eqn:Es; [|discriminate].
     destruct (Z.eqb_spec (pattern_ctor_code namelen (bs_blocks E s)) 0) as [Hc|]; [|discriminate].
     intros [= <-]. apply pattern_ctor_accepts_iff in Hc. destruct Hc as [_ [b0 [rest [Hb [H0 Hl]]]]].
     assert (Hwf : all_wf s) by (eapply bsteps_wf; eauto; constructor).
